@@ -146,7 +146,7 @@ def slim(r):
 def run(ctx):
     ctx.add_obligations(vcheck.coq_props("Exec", "C20"))
     ctx.cov["checker_cmd"] = "coqc -Q coq/Exec BWExec coq/Exec/Props/C20.v; work/bin/h_fault -seed S -n N | model evaluated by vm_compute (coq/Exec/Corr.v fault_agrees)"
-    n = 600 if ctx.tier == "thorough" else 34
+    n = 600 if ctx.tier == "thorough" else 40
     runs = hfault(["-seed", str(ctx.seed), "-n", str(n)] + (["-deep"] if ctx.tier == "thorough" else ["-maxids", "30"]))
     if ctx.replay:
         rp = json.load(open(ctx.replay))
